@@ -26,6 +26,25 @@ Section Conj.
   Lemma zeta_8 : kpow O (zeta O) 8 = z1.
   Proof. cbv -[kadd kmul kopp ksub kconj k0 k1 ki khalf ks2]. do 4 apply cancel2. ring [ii2 half2 s22]. Qed.
 
+  (* closed forms of the powers of zeta, so that the entries stay small *)
+  Definition zs (e : nat) : K :=
+    match e with
+    | 0 => z1 | 1 => zeta O | 2 => ii | 3 => ii * zeta O
+    | 4 => - z1 | 5 => - zeta O | 6 => - ii | _ => - (ii * zeta O)
+    end.
+  Definition zsc (e : nat) : K :=
+    match e with
+    | 0 => z1 | 1 => zetac O | 2 => - ii | 3 => - (ii * zetac O)
+    | 4 => - z1 | 5 => - zetac O | 6 => ii | _ => ii * zetac O
+    end.
+  Lemma kpow_zeta : forall e, e < 8 -> kpow O (zeta O) e = zs e /\ kpow O (zetac O) e = zsc e.
+  Proof.
+    intros e He. do 8 (destruct e as [|e]; [split; cbv -[kadd kmul kopp ksub kconj k0 k1 ki khalf ks2];
+      first [ring [ii2 half2 s22] | apply cancel2; ring [ii2 half2 s22] | do 2 apply cancel2; ring [ii2 half2 s22]
+            | do 3 apply cancel2; ring [ii2 half2 s22] | do 4 apply cancel2; ring [ii2 half2 s22]]|]).
+    exfalso; lia.
+  Qed.
+
   Variables g gc : K.
   Hypothesis U : g * gc = z1.
 
@@ -34,14 +53,18 @@ Section Conj.
            | |- (_ :: _) = (_ :: _) => apply (f_equal2 cons)
            | |- @nil _ = @nil _ => reflexivity
            end.
-  Ltac fin := first [ ring [U ii2 half2 s22]
+  Ltac fin := first [ ring | ring [U ii2 half2 s22]
           | apply cancel2; ring [U ii2 half2 s22]
           | do 2 apply cancel2; ring [U ii2 half2 s22]
           | do 3 apply cancel2; ring [U ii2 half2 s22]
-          | do 4 apply cancel2; ring [U ii2 half2 s22]
-          | do 6 apply cancel2; ring [U ii2 half2 s22]
-          | do 8 apply cancel2; ring [U ii2 half2 s22] ].
+          | do 4 apply cancel2; ring [U ii2 half2 s22] ].
   Ltac mat_eq := cbv -[kadd kmul kopp ksub kconj k0 k1 ki khalf ks2]; split_list; fin.
+  (* replace zeta^e by its closed form, then compute *)
+  Ltac gate_eq e :=
+    unfold gate_x, gate_y, gate_z, gate_h, gate_cz, gate_cx, gate_swap,
+           gate_x_inv, gate_y_inv, gate_z_inv, gate_h_inv, gate_cz_inv, gate_cx_inv, gate_swap_inv;
+    rewrite (proj1 (kpow_zeta e ltac:(lia))), (proj2 (kpow_zeta e ltac:(lia)));
+    repeat split; try (intros p; first [destruct p as [[[|] [|]] [|]] | destruct p as [[[[[|] [|]] [|]] [|]] [|]]]); mat_eq.
   Ltac case8 e H := do 8 (destruct e as [|e]; [|]); [ .. | exfalso; lia ].
   Ltac all_loc1 p := destruct p as [[[|] [|]] [|]].
   Ltac all_loc2 p := destruct p as [[[[[|] [|]] [|]] [|]] [|]].
@@ -58,15 +81,15 @@ Section Conj.
 
   Theorem rule_is_conjugation_X : forall e, e < 8 -> conj1_ok (gate_x O e g) (gate_x_inv O e gc) (rule_x (eff e)).
   Proof.
-    intros e He. do 8 (destruct e as [|e]; [repeat split; try (intros p; all_loc1 p); mat_eq|]). exfalso; lia.
+    intros e He. assert (H8 := He). do 8 (destruct e as [|e]; [match goal with |- conj1_ok (_ _ ?n _) _ _ => gate_eq n end|]). exfalso; lia.
   Qed.
   Theorem rule_is_conjugation_Y : forall e, e < 8 -> conj1_ok (gate_y O e g) (gate_y_inv O e gc) (rule_y (eff e)).
   Proof.
-    intros e He. do 8 (destruct e as [|e]; [repeat split; try (intros p; all_loc1 p); mat_eq|]). exfalso; lia.
+    intros e He. assert (H8 := He). do 8 (destruct e as [|e]; [match goal with |- conj1_ok (_ _ ?n _) _ _ => gate_eq n end|]). exfalso; lia.
   Qed.
   Theorem rule_is_conjugation_Z : forall e, e < 8 -> conj1_ok (gate_z O e g) (gate_z_inv O e gc) (rule_z (eff e)).
   Proof.
-    intros e He. do 8 (destruct e as [|e]; [repeat split; try (intros p; all_loc1 p); mat_eq|]). exfalso; lia.
+    intros e He. assert (H8 := He). do 8 (destruct e as [|e]; [match goal with |- conj1_ok (_ _ ?n _) _ _ => gate_eq n end|]). exfalso; lia.
   Qed.
   (* integer exponents t = e/2, e in {0,2,4,6}: the rule is applied iff t is odd *)
   Definition evens : list nat := [0; 2; 4; 6].
@@ -74,24 +97,24 @@ Section Conj.
     conj1_ok (gate_h O e g) (gate_h_inv O e gc) (fun p => if odd_e e then rule_h p else p).
   Proof.
     intros e He. simpl in He.
-    repeat (destruct He as [<-|He]; [repeat split; try (intros p; all_loc1 p); mat_eq|]). destruct He.
+    repeat (destruct He as [<-|He]; [match goal with |- conj1_ok (_ _ ?n _) _ _ => gate_eq n end|]). destruct He.
   Qed.
   Theorem rule_is_conjugation_CZ : forall e, In e evens ->
     conj2_ok (gate_cz O e g) (gate_cz_inv O e gc) (fun p => if odd_e e then rule_cz p else p).
   Proof.
     intros e He. simpl in He.
-    repeat (destruct He as [<-|He]; [repeat split; try (intros p; all_loc2 p); mat_eq|]). destruct He.
+    repeat (destruct He as [<-|He]; [match goal with |- conj2_ok (_ _ ?n _) _ _ => gate_eq n end|]). destruct He.
   Qed.
   Theorem rule_is_conjugation_CX : forall e, In e evens ->
     conj2_ok (gate_cx O e g) (gate_cx_inv O e gc) (fun p => if odd_e e then rule_cx p else p).
   Proof.
     intros e He. simpl in He.
-    repeat (destruct He as [<-|He]; [repeat split; try (intros p; all_loc2 p); mat_eq|]). destruct He.
+    repeat (destruct He as [<-|He]; [match goal with |- conj2_ok (_ _ ?n _) _ _ => gate_eq n end|]). destruct He.
   Qed.
   Theorem rule_is_conjugation_SWAP : forall e, In e evens ->
     conj2_ok (gate_swap O e g) (gate_swap_inv O e gc) (rule_swap (odd_e e)).
   Proof.
     intros e He. simpl in He.
-    repeat (destruct He as [<-|He]; [repeat split; try (intros p; all_loc2 p); mat_eq|]). destruct He.
+    repeat (destruct He as [<-|He]; [match goal with |- conj2_ok (_ _ ?n _) _ _ => gate_eq n end|]). destruct He.
   Qed.
 End Conj.
